@@ -199,7 +199,8 @@ class Lib:
         return self.run(req, strings)
 
 
-PB_WHAT = {'meson': 'default options', 'meson-release': 'buildtype=release, b_ndebug=true', 'meson-uchar': 'plain char unsigned, as on arm / ppc64le / s390x'}
+PB_WHAT = {'meson': 'default options', 'meson-release': 'buildtype=release, b_ndebug=true', 'meson-uchar': 'plain char unsigned, as on arm / ppc64le / s390x',
+           'meson-static': 'default_library=static, linked into a program that references only what it calls'}
 
 
 def independence(ck, prefix, config, jobs, orders=('given', 'reversed', 'last-argument-major', 'each-twice')):
@@ -245,7 +246,7 @@ def independence(ck, prefix, config, jobs, orders=('given', 'reversed', 'last-ar
         # globals, every name the library uses internally and does not export (build.hostile_host) - internals that are really internal never
         # bind to them
         from . import build as _b
-        for pb in _b.PROJECT_BUILDS:
+        for pb in _b.EXEC_BUILDS:
             try:
                 r5 = Lib(config, pb, shuffle=False, env={'LD_PRELOAD': _b.hostile_host(config)['so']}).run(req, strs); n += len(req)
                 bad = np.nonzero(((r5.v.view('u8') != ref.v.view('u8')) & ~(np.isnan(r5.v) & np.isnan(ref.v))) | (r5.status != ref.status))[0]
@@ -278,6 +279,29 @@ def independence(ck, prefix, config, jobs, orders=('given', 'reversed', 'last-ar
                          '%s kills the process (rc %d) when invalid-operation / division-by-zero / overflow exceptions trap%s' % (
                              name, ex.rc, '' if q is None else ': ints %r doubles %r' % (q['i'][:3].tolist(), q['d'][:3].tolist())),
                          dict(function=name, ints=None if q is None else q['i'][:3].tolist(), doubles=None if q is None else q['d'][:4].tolist(), config=config, fp_traps=True))
+        # a host whose own arithmetic has left sticky floating-point status flags raised (x/0.0, log(0), an overflow somewhere earlier: no traps):
+        # the library may not read them as if they were its own
+        try:
+            r8 = Lib(config, shuffle=False, env={'XV_FPFLAGS': '1'}).run(req, strs); n += len(req)
+            bad = np.nonzero(((r8.v.view('u8') != ref.v.view('u8')) & ~(np.isnan(r8.v) & np.isnan(ref.v))) | (r8.status != ref.status))[0]
+            for k in bad[:2]:
+                q = req[k]
+                ck.violation('%s:%s:result-depends-on-fp-status-flags-left-by-the-host' % (prefix, name), '%s returns %r (status %d) when the host has left FE_DIVBYZERO / FE_INVALID / FE_OVERFLOW / FE_UNDERFLOW / FE_INEXACT raised and %r (status %d) otherwise' % (
+                    name, float(r8.v[k]), int(r8.status[k]), float(ref.v[k]), int(ref.status[k])), dict(function=name, ints=q['i'][:3].tolist(), doubles=q['d'][:4].tolist(), config=config))
+        except ExecCrash as ex:
+            ck.violation('%s:%s:dies-with-fp-status-flags-raised' % (prefix, name), '%s kills the executor (rc %d) when the host has left FP status flags raised' % (name, ex.rc), dict(function=name, config=config))
+        # a host whose x87 precision-control field is not the default (single: Direct3D 9, some audio / JIT engines; double: old BSD defaults):
+        # double arithmetic on x86-64 is SSE and does not look at it - only a computation that was moved into long double does
+        for pc in ('24', '53'):
+            try:
+                r7 = Lib(config, shuffle=False, env={'XV_X87PC': pc}).run(req, strs); n += len(req)
+                bad = np.nonzero(((r7.v.view('u8') != ref.v.view('u8')) & ~(np.isnan(r7.v) & np.isnan(ref.v))) | (r7.status != ref.status))[0]
+                for k in bad[:2]:
+                    q = req[k]
+                    ck.violation('%s:%s:result-depends-on-the-x87-precision-control-of-the-host' % (prefix, name), '%s returns %r when the host has set the x87 precision control to %s bits and %r otherwise' % (
+                        name, float(r7.v[k]), pc, float(ref.v[k])), dict(function=name, ints=q['i'][:3].tolist(), doubles=q['d'][:4].tolist(), config=config, x87_precision_bits=int(pc)))
+            except ExecCrash as ex:
+                ck.violation('%s:%s:dies-with-x87-precision-control-%s' % (prefix, name, pc), '%s kills the executor (rc %d) when the x87 precision control is %s bits' % (name, ex.rc, pc), dict(function=name, config=config))
         r3 = nosl.run(req, strs); n += len(req)
         bad = np.nonzero(r3.v.view('u8') != ref.v.view('u8'))[0]
         bad = [k for k in bad if not (np.isnan(r3.v[k]) and np.isnan(ref.v[k]))]
